@@ -54,7 +54,9 @@ def families(tier):
         seq_paths.append(rp((kw,)))
     seq_paths_x = [rp((("key", "x"),) + p[0]) for p in seq_paths]
     for pool in ((1000, 2000, 3000), ("aa", "bb", "cc"), (1.5, 2.5),
-                 (0, -1, 7), (0.0, -0.5)):
+                 (0, -1, 7), (0.0, -0.5),
+                 # different values whose CPython hashes coincide
+                 (-1, -2, 2305843009213693951), (-1.0, -2.0)):
         alpha = pool + (None,)
         for n in range(1, maxlen + 1):
             for combo in itertools.product(alpha, repeat=n):
@@ -67,7 +69,7 @@ def families(tier):
         rec_paths.append(rp((kw,)))
         rec_paths.append(rp((kw, ("key", "id"))))
     rec_paths_x = [rp((("key", "x"),) + p[0]) for p in rec_paths]
-    for vals in ((1000, 2000), ("aa", "bb"), (0, -1), (0.0, 2.5)):
+    for vals in ((1000, 2000), ("aa", "bb"), (0, -1), (0.0, 2.5), (-1, -2)):
         # (zero and negative values: a greatest or least value that is falsy)
         pats = vals + ("-", None)
         for n in range(1, maxrec + 1):
